@@ -2823,7 +2823,12 @@ bool DGXMLScanner::scanAttValue(  const   XMLAttDef* const    attDef
             if (nextCh == quoteCh)
             {
                 if (curReader == fReaderMgr.getCurrentReaderNum())
+                {
+                    // a leading surrogate must not be the last thing in the value
+                    if (gotLeadingSurrogate)
+                        emitError(XMLErrs::Expected2ndSurrogateChar);
                     return true;
+                }
 
                 // Watch for spillover into a previous entity
                 if (curReader > fReaderMgr.getCurrentReaderNum())
